@@ -136,8 +136,8 @@ def errTok : Sign.Err → String
   | .pass => "err:pass" | .utxo => "err:utxo" | .index => "err:index" | .spent => "err:spent"
   | .key => "err:key" | .script => "err:script"
 
-/-- SPEC of signing: when every input is an unspent output of wallet w on the chain the wallet knows
-    (or an output to w of a pending transaction), the flag is supported, SigHashSingle has an output for
+/-- SPEC of signing: when the wallet is in step with the node's best chain and every input is an unspent
+    output of wallet w on that chain (or an output to w of a pending transaction), the flag is supported, SigHashSingle has an output for
     every input and the staking sequence rule holds, signing succeeds exactly with the right passphrase. -/
 def specSign (st : St) (w pass flag : String) (t : Ledger.Tx) : Option String :=
   match AMap.get st.ks.wal w, Sign.parseFlag flag with
@@ -154,6 +154,10 @@ def specSign (st : St) (w pass flag : String) (t : Ledger.Tx) : Option String :=
             | none => none
           | none => none
         | none => none
+    -- the wallet reads previous transactions out of the NODE's chain database by (height, location): the
+    -- statement is about a wallet that has been told about the node's current best chain
+    let inSync := (st.led.node.chain.map (·.id)) == (st.led.specChain.map (·.id))
+    if !inSync then none else
     if t.ins.isEmpty then none else
     if t.ins.all (fun i => match clsOfIn i with | some c => Sign.seqOk c i.seq | none => false)
        && !(fl.base = .single && t.ins.length > t.outs.length) then
@@ -229,16 +233,20 @@ def step (st : St) (args : List String) : St × String :=
     | some (w', idx) =>
       if w' ≠ w then (st, "bad-op") else
       let known := match AMap.get st.ks.wal w with | some (r, _) => decide (idx < r.nExt) | none => false
+      -- the harness needs the public key of the address to call SignHash at all: for an address the
+      -- keystore does not hold (removed wallet, index not restored) nothing is called, nothing changes
+      if !known then (st, "err:key") else
       let (st', o) := ksStep st (.signHash w 0 idx p)
-      (st', withSpec o (if known then gateSpec st w p else none))
+      (st', withSpec o (gateSpec st w p))
   | ["kssign", w, a, p] =>
     match AMap.get st.addrIdx a with
     | none => (st, "bad-op")
     | some (w', idx) =>
       if w' ≠ w then (st, "bad-op") else
       let known := match AMap.get st.ks.wal w with | some (r, _) => decide (idx < r.nExt) | none => false
+      if !known then (st, "err:key") else
       let (st', o) := ksStep st (.ksSign w 0 idx p)
-      (st', withSpec o (if known then gateSpec st w p else none))
+      (st', withSpec o (gateSpec st w p))
   | ["ksclear"] => ksStep st .ksClear
   | ["kdecrypt", w, p] =>
     if (AMap.get st.ks.idents w).isNone then (st, "bad-op") else
@@ -280,6 +288,9 @@ def step (st : St) (args : List String) : St × String :=
     if (Led.parseList outs).any unknown then (st, "err") else
     let (l, o) := Led.step st.led args
     ({ st with led := l }, o)
+  | ["txlock", t, lock, _] =>
+    -- lock time and payload are covered by the signature hash only: no effect on the model
+    if (AMap.get st.led.txs t).isNone || lock.toNat?.isNone then (st, "bad-op") else (st, "ok")
   | "autosign" :: _ => (st, "pass\tpass")
   | _ =>
     let (l, o) := Led.step st.led args
